@@ -158,6 +158,72 @@ class Sem:
         return res
 
 
+class LocalSem:
+    """Containment of all shadings of ONE classical pattern pi of length k, decided on
+    texts = every permutation obtained from pi by inserting at most `extra` new points
+    (refmodel.insert_point) = every sigma of length <= k + extra that contains pi classically;
+    permutations not containing pi contain no shading of it, so this is the same horizon as
+    S<=k+extra.  Kept per text (tuple of the distinct occupancy masks of its occurrences of pi)
+    so that it also works for grids with more than 16 cells."""
+
+    def __init__(self, patt, extra):
+        self.patt = tuple(patt)
+        self.k = k = len(self.patt)
+        self.ncells = (k + 1) ** 2
+        self.extra = extra
+        level = {self.patt}
+        texts = [self.patt]
+        for _ in range(extra):
+            nxt = set()
+            for t in level:
+                n = len(t)
+                for i in range(n + 1):
+                    for v in range(n + 1):
+                        nxt.add(R.insert_point(t, i, v))
+            level = nxt
+            texts.extend(sorted(nxt))
+        self.texts = texts
+        self.occs = []
+        for t in texts:
+            ms = set()
+            for idx in itertools.combinations(range(len(t)), k):
+                if R.std([t[i] for i in idx]) == self.patt:
+                    ms.add(occupancy(k, idx, t)[0])
+            self.occs.append(tuple(sorted(ms)))
+
+    def contain(self, shading_mask):
+        out = 0
+        for ti, ms in enumerate(self.occs):
+            for m in ms:
+                if not m & shading_mask:
+                    out |= 1 << ti
+                    break
+        return out
+
+    def analyse(self, shading_mask):
+        """(bitset of the texts containing (patt, shading), forced): forced = the cells c such
+        that some containing text has an entry in c in EVERY occurrence that respects the shading,
+        i.e. exactly the cells whose shading would lose that text."""
+        base = forced = 0
+        for ti, ms in enumerate(self.occs):
+            inter = -1
+            for m in ms:
+                if not m & shading_mask:
+                    inter &= m
+            if inter != -1:
+                base |= 1 << ti
+                forced |= inter
+        return base, forced
+
+    def lost(self, shading_mask, extra_mask):
+        """First text containing (patt, shading) but not (patt, shading + extra cells), or None."""
+        for ti, ms in enumerate(self.occs):
+            ok = [m for m in ms if not m & shading_mask]
+            if ok and all(m & extra_mask for m in ok):
+                return self.texts[ti]
+        return None
+
+
 def first_bit(x):
     return (x & -x).bit_length() - 1
 
